@@ -7,29 +7,6 @@ then `END <n>`.
 import SgVerif.McRef.DriverLib
 open SgVerif SgVerif.McRef SgVerif.Proto
 
-partial def loop (h : IO.FS.Stream) (n : Nat) : IO Nat := do
-  let line ← h.getLine
-  if line.isEmpty then return n
-  let l := line.trimAscii.toString
-  if l.isEmpty then loop h n else
-  match splitQA l with
-  | none => IO.println s!"BADLINE {l}"; loop h (n+1)
-  | some (q, a) =>
-    match q with
-    | "ref" :: capS :: prog =>
-      match capS.toNat?, parseProgram prog with
-      | some cap, some p => IO.println (refLine (explore p false cap))
-      | _, _ => IO.println s!"BADLINE {l}"
-    | "chk" :: rest =>
-      match judgeChk rest a with
-      | .ok => IO.println "ok"
-      | .disagree m => IO.println s!"DISAGREE {" ".intercalate q} => model={m} impl={" ".intercalate a}"
-      | .monfail r => IO.println s!"MONFAIL {" ".intercalate q} => {r}"
-      | .bad => IO.println s!"BADLINE {l}"
-    | _ => IO.println s!"BADLINE {l}"
-    (← IO.getStdout).flush
-    loop h (n+1)
-
-def main : IO Unit := do
-  let n ← loop (← IO.getStdin) 0
-  IO.println s!"END {n}"
+def main : IO Unit := driverMain (fun q a => match q with
+  | "chk" :: rest => judgeChk rest a
+  | _ => .bad)
